@@ -5,3 +5,5 @@ int gh_flushes; int gh_err_n; int gh_err_last; int gh_srq_n; unsigned gh_srq_val
 size_t gh_w; size_t gh_nul; int gh_free_n; void *gh_free_last; void *gh_free_prev; size_t gh_dup_len;
 unsigned short gh_k;
 int gh_case;
+int gh_trunc; size_t gh_fmt_need;
+int gh_conv_zero;
